@@ -200,6 +200,10 @@ def p1(ctx):
     ok_returns = [n for n in cfg.nodes if n.kind == "return" and n.ast.value is not None
                   and response_status(ctx, get, n.ast.value) == 200]
     if not ok_returns:
+        # status held in a variable: fall back to "the returns that send the body"
+        ok_returns = [n for n in cfg.nodes if n.kind == "return" and isinstance(n.ast.value, ast.Call)
+                      and any(k.arg == "body" for k in n.ast.value.keywords)]
+    if not ok_returns:
         raise AnalysisError("_do_get: no 200 return found")
     # the variable holding the current etag: third element of the render() tuple
     etag_vars = []
